@@ -986,7 +986,7 @@ func (*MemFS) ToSysStat(info fs.FileInfo) avfs.SysStater {
 func (vfs *MemFS) Truncate(name string, size int64) error {
 	op := "truncate"
 
-	if size < 0 {
+	if size < 0 || size > maxFileSize {
 		return &fs.PathError{Op: op, Path: name, Err: vfs.err.InvalidArgument}
 	}
 
